@@ -57,6 +57,17 @@ CHECKS["C03"] = dict(
     note="Trusts the reference expander inside the model (~80 lines) and rtol 1e-9 for range-derived floats.",
     design="DESIGN.md section 4 C03")
 
+CHECKS["C06"] = dict(
+    category="fault_enumeration",
+    technique="Hypothesis-generated pipelines x injected fault kind x node index x detail level x output mode; stream-grammar, registry-schema and cross-record invariant oracle; differential against the untraced run (exception identity); /proc/self/fd probe",
+    text=("Fault injection by generation (6.4k cases quick, 56k thorough): a pre-built exception object (ValueError, RuntimeError, "
+          "KeyboardInterrupt, BaseException subclass) is raised at a generated node, or a construction error is planted at a generated "
+          "node, on top of the generator's own unresolved-parameter / type-gate / undeclared-write failures. Every emitted line is "
+          "schema-validated via the registry; the stream grammar, shared ids, node order, upstream lists, statuses, pipeline_end "
+          "status, exception identity and file closure are checked independently."),
+    note="Trusts jsonschema/referencing, /proc/self/fd, and the untraced run as the reference for which nodes started.",
+    design="DESIGN.md section 4 C06")
+
 NOT_YET = {}
 
 
